@@ -944,3 +944,46 @@ func tableValues(p *pkgInfo, name string) ([]string, bool) {
 	}
 	return nil, false
 }
+
+// callOptsValues returns the constant fields of the struct literal passed as the only
+// argument of the call that initialises package-level variable `name`
+// (e.g. MLDSA44 = newParams(paramsOpts{tau: 39, ...})), in source order.
+func callOptsValues(p *pkgInfo, name string) (fn string, fields [][2]string, ok bool) {
+	for _, file := range p.files {
+		for _, d := range file.Decls {
+			gd, isGen := d.(*ast.GenDecl)
+			if !isGen || gd.Tok != token.VAR {
+				continue
+			}
+			for _, sp := range gd.Specs {
+				vs := sp.(*ast.ValueSpec)
+				for i, n := range vs.Names {
+					if n.Name != name || i >= len(vs.Values) {
+						continue
+					}
+					call, isCall := vs.Values[i].(*ast.CallExpr)
+					if !isCall || len(call.Args) != 1 {
+						return "", nil, false
+					}
+					cl, isLit := call.Args[0].(*ast.CompositeLit)
+					if !isLit {
+						return "", nil, false
+					}
+					for _, e := range cl.Elts {
+						kv, isKV := e.(*ast.KeyValueExpr)
+						if !isKV {
+							return "", nil, false
+						}
+						tv, has := p.info.Types[kv.Value]
+						if !has || tv.Value == nil || tv.Value.Kind() != constant.Int {
+							return "", nil, false
+						}
+						fields = append(fields, [2]string{types.ExprString(kv.Key), zlit(tv.Value)})
+					}
+					return types.ExprString(call.Fun), fields, true
+				}
+			}
+		}
+	}
+	return "", nil, false
+}
